@@ -20,5 +20,5 @@ package pathutil
 //gvc:  loop 1 step skipped: spec_hfs_ignored(runes[i - 1])
 //gvc:  loop 3 step skipped: spec_hfs_ignored(runes[i - 1])
 //gvc:  loop 4 step skipped: spec_hfs_ignored(runes[i - 1])
-//gvc:  ensures table: forall(r, 0, 1114112, has(hfsIgnoredCodepoints, r) == spec_hfs_ignored(r))
+//gvc:  ensures _table: forall(r, 0, 1114112, has(hfsIgnoredCodepoints, r) == spec_hfs_ignored(r))
 //gvc:end
